@@ -833,7 +833,9 @@ def g_nufft_adjoint(draw, s, dt):
             "coord": _coord(draw, grid, pts, ("in", "in", "out", "int", "tie")), "oversamp": os_, "width": w}
 
 
-WAVES = ["haar", "db2", "db4", "sym3", "coif1", "db3"]
+# orthogonal families (C10) plus "dmey", which pywt flags orthogonal and whose inverse IS the adjoint although W^H W != I;
+# biorthogonal names are excluded by construction: known finding KF-C01-2
+WAVES = ["haar", "db2", "db4", "sym3", "coif1", "db3", "dmey"]
 
 
 def g_wavelet(draw, s, dt):
